@@ -50,7 +50,7 @@ def run(ctx):
         return
     g = CFG(sample.node)
     lp = g.loop_of(loop_node)
-    apps = history_appends(sample)
+    apps = history_appends(sample, repo, smc)
     series = sorted({s for s, _ in apps})
     ctx.floor("history series appended by sample()", len(series), 7)
     in_loop = lambda n: loop_node.lineno <= n.lineno <= loop_node.end_lineno
@@ -108,7 +108,7 @@ def run(ctx):
         n_cls += 1
         mu = c.methods["mutate"]
         mg = CFG(mu.node)
-        mapps = mutate_appends(mu)
+        mapps = history_appends(mu, repo, c) or mutate_appends(mu)
         for sname in sorted({s for s, _ in mapps}):
             nodes = [n for s, n in mapps if s == sname]
             # count over all entry->exit paths of mutate: treat the function as a one-iteration loop
@@ -235,6 +235,7 @@ MUTANTS = [
     M("eff_target at the previous temperature", _B, "self.history.eff_target.append(\n                    self.current_target_efficiency(beta)\n                )", "self.history.eff_target.append(\n                    self.current_target_efficiency(samples.beta)\n                )", "C18.def"),
 ]
 NEUTRALS = [
+    M("history through a local alias", _B, "self.history.beta.append(beta)", "hist = self.history\n                hist.beta.append(beta)"),
     M("appends reordered", _B, "self.history.ess.append(ess)", "pass", more=[("self.history.beta.append(beta)", "self.history.beta.append(beta)\n                self.history.ess.append(effective_sample_size(samples.log_weights(beta)))")]),
     M("flag test inverted with swapped branches", _B, "samples = self.mutate(samples, beta)\n                if store_sample_history:\n                    self.history.sample_history.append(samples)",
       "samples = self.mutate(samples, beta)\n                if not store_sample_history:\n                    pass\n                else:\n                    self.history.sample_history.append(samples)"),
